@@ -29,8 +29,14 @@ claimed = {
          "TLC-enumerated middleware configurations replayed with tracing middleware; concurrent NewRoute under the race detector", "5"),
  "C14": (MC, "TLC explores every call sequence up to a bound on the recorder model (WriteHeader incl. informational/101/repeated, Write/WriteString fully/partially/not accepted, ReadFrom with failing source or destination, Flush, Hijack, capability calls, String/Blob/Stream/Redirect) for four capability sets of the underlying writer and checks AtMostOneFinal, StatusIsFirstFinal, SizeIsAccepted, WrittenIff, NoHeaderAfterBody; every edge is replayed on the real recorder over purpose-built underlying writers that log what they receive and fail on demand.",
          "TLC state graph of the response recorder replayed over fault-injecting underlying writers", "5"),
+ "C15": (MC, "TLC enumerates panic class x response progress and prescribes re-panic, client response and logging (spec/FoxRecovery.tla), and decides redaction for every capitalisation of the sensitive header names through the canonicalisation operator; each case is replayed with real panic values (http.ErrAbortHandler, wrapped, net.OpError/EPIPE/ECONNRESET, errors, strings, nil, custom) raised in route handlers, inner middleware and the special handlers; the captured diagnostic record, the response, the escaped panic and the usability of the router afterwards are compared. Panics inside managed transactions are the FnPanic edges of C04.",
+         "TLC-enumerated panic cases replayed on the real Recovery middleware with a capturing log handler", "5"),
  "C17": (MC, "TLC checks idempotence, canonicity, fixed point and the trailing-slash rule of the reference Clean on every string over {/ . a % rune} up to a bounded length and emits (input, canonical form) pairs compared with fox.CleanPath; long random inputs crossing the 128-byte buffer are recorded from the real code and validated by TLC (Obs_Clean).",
          "TLC-enumerated CleanPath vectors replayed; recorded outputs validated by TLC", "5"),
+ "C19": (MC, "TLC folds every sequence of global options x route options (repeated, contradictory, nil resolver, invalid annotation keys) with last-wins semantics (spec/FoxOptions.tla) and prescribes the route configuration, the error class and the resolver in force per handler kind; replayed through New/Handle/NewRoute/Update, the Route accessors, Stats and Context.ClientIP inside every handler kind; plus accessor consistency for patterns tokenised by FoxPattern and a table of invalid options that must return errors, never panic.",
+         "TLC-enumerated option sequences replayed on the real router and routes", "5"),
+ "C20": (MC, "TLC enumerates handler behaviour (status classes and boundaries, implicit 200, nothing written, Location) x resolver configuration (none/ok/failing, per-route override) x handler kind and prescribes the record (spec/FoxLogger.tla); replayed with a capturing slog handler: exactly one record after the handler, level, message, attributes, location, response identical with and without the middleware, panics pass through.",
+         "TLC-enumerated logger cases replayed with a capturing slog handler", "5"),
  "C11": (MC, "TLC exhausts FoxServe!Reply over tables on several methods x the four option combinations x per-route trailing-slash options x requests (incl. OPTIONS *); status, handler kind, Allow (as a set) and the context of special handlers are compared through ServeHTTP.",
          "TLC-enumerated dispatch vectors (404/405/OPTIONS/Allow) replayed through ServeHTTP", "5"),
 }
